@@ -201,6 +201,9 @@ type Coverage struct {
 
 func (r *Run) writeReplay(v *Violation) string {
 	dir := filepath.Join(Root(), "replays", r.ID)
+	if d := os.Getenv("VERIF_EVIDENCE_DIR"); d != "" {
+		dir = filepath.Join(d, "replays")
+	}
 	_ = os.MkdirAll(dir, 0o755)
 	bz, _ := json.MarshalIndent(map[string]any{"property": r.ID, "clause": v.Clause, "tags": v.Tags, "msg": v.Msg, "cost": v.Cost, "history": v.History}, "", " ")
 	h := sha256.Sum256(bz)
@@ -259,6 +262,9 @@ func (r *Run) Finish(c Coverage) {
 	}
 	if r.replayIn == "" {
 		dir := filepath.Join(Root(), "evidence")
+		if d := os.Getenv("VERIF_EVIDENCE_DIR"); d != "" {
+			dir = d
+		}
 		_ = os.MkdirAll(dir, 0o755)
 		bz, _ := json.MarshalIndent(ev, "", " ")
 		if err := os.WriteFile(filepath.Join(dir, r.ID+".json"), bz, 0o644); err != nil {
